@@ -537,6 +537,11 @@ def generate(repo):
     return "\n".join(out)
 
 
+# what runner.check_kernels runs for a property whose propdef sets the flag
+STAGES = [("methods", "Methods.v", generate, "TieMethods.v"),
+          ("builder", "BuilderGen.v", generate_builder, "TieBuilder.v"),
+          ("ctors", "Ctors.v", generate_ctors, "TieCtors.v")]
+
 if __name__ == "__main__":
     import sys
     print(generate(sys.argv[1] if len(sys.argv) > 1 else "/repo"))
